@@ -1,6 +1,6 @@
 (* Model/Codec.v — instance of the model at cand := positive and the val <-> model codecs.
    Glue, not model: no proofs. *)
-From VK Require Import Base Core STV Pairwise Rules.
+From VK Require Import Base Core STV Pairwise Rules PV Election.
 
 Definition cand := positive.
 Definition ceqb := Pos.eqb.
@@ -132,3 +132,20 @@ Definition ePwc (g : pwc cand) : val :=
   VL [eCset (pw_cands g);
       VS (map (fun e => VL [ePos (fst (fst e)); ePos (snd (fst e)); VQ (snd e)]) (pw_dict g));
       eRanking (pw_tiers g)].
+
+Definition dWRule (v : val) : res (wrule) :=
+  match v with
+  | VL [VZ 101; q; tb] =>
+      let! q' := dZ q in let! tb' := dTb tb in
+      ok (WIRV (if Z.eqb q' 1 then QDroop else if Z.eqb q' 2 then QHare else QBad) tb')
+  | VL [VZ 102; m; q; sim; tb] =>
+      let! m' := dZ m in let! q' := dZ q in let! sim' := dB sim in let! tb' := dTb tb in
+      ok (WSeqRCV m' (if Z.eqb q' 1 then QDroop else if Z.eqb q' 2 then QHare else QBad) sim' tb')
+  | VL [VZ 103; m; tb] => let! m' := dZ m in let! tb' := dTb tb in ok (WSNTV m' tb')
+  | VL [VZ 104; m; L; tb] =>
+      let! m' := dZ m in let! L' := dQ L in let! tb' := dTb tb in ok (WRating m' L' tb')
+  | VL [VZ 105; m; tb] => let! m' := dZ m in let! tb' := dTb tb in ok (WApproval m' tb')
+  | VL [VZ 106; m; tb] => let! m' := dZ m in let! tb' := dTb tb in ok (WCumulative m' tb')
+  | VL [VZ 107; m; tb] => let! m' := dZ m in let! tb' := dTb tb in ok (WPV m' tb')
+  | _ => let! r := dRule v in ok (WBase r)
+  end.
